@@ -391,7 +391,7 @@ def cross_check(ctx, rule_fn):
     """Reports are confirmed on a second, behaviour-preserving view of the program in which unknown helpers are
     transparent.  If the rules find nothing to report there, the reports of the first view are artefacts of where the
     code was split into functions and are withdrawn (status ok, with a note).  Otherwise the reports confirmed by
-    both views are kept (all of the second view's if the ids do not intersect)."""
+    both views are kept; what only one view reports is withdrawn (and recorded in the evidence)."""
     bad1 = [o for o in ctx.obligations if o.status in ("violated", "anchor-missing") or o.status is None]
     if not bad1:
         return None
@@ -427,11 +427,12 @@ def cross_check(ctx, rule_fn):
                 o.detail = "withdrawn: not confirmed with helpers inlined; first view said: %s" % (o.detail or "")[:200]
                 o.status = "ok"
     else:
+        # nothing is confirmed by both views: the first view's reports are withdrawn, and what only the second view says is
+        # recorded but not reported (the second view exists to confirm, its own artefacts must not become alarms)
         for o in bad1:
             o.detail = "withdrawn: not confirmed with helpers inlined; first view said: %s" % (o.detail or "")[:200]
             o.status = "ok"
-        for o in bad2.values():
-            ctx.obligations.append(o)
+        info["second_view_only"] = sorted(bad2)
     return info
 
 
